@@ -49,11 +49,11 @@ def r_processnode(root):
         cKindM, cKindT, cFQN, cUser = mcls("KindM", ABSTRACT), mcls("KindT", ABSTRACT), mcls("FQN", MATCH), mcls("UserThing", COMMON)
         cUser.own["_tx_attrs"] = {"name": attr("name", cID)}
         user_class = pyeval.ClassObj("UserThing", {"_tx_type": COMMON, "_tx_attrs": cUser.own["_tx_attrs"], "_tx_fqn": "UserThing", "__name__": "UserThing", "_tx_obj_attrs": {}})       # a class supplied by the user (classes=[UserThing])
-        cItem.own["_tx_attrs"] = {"name": attr("name", cID), "flag": attr("flag", cKW, OPT, boolasg=True)}
+        cItem.own["_tx_attrs"] = {"name": attr("name", cID), "flag": attr("flag", cKW, OPT, boolasg=True), "parent": attr("parent", cItem, OPT, cont=False, ref=True)}      # the rule has an (unused) attribute called parent
         cB.own["_tx_attrs"] = {"name": attr("name", cID)}; cBox.own["_tx_attrs"] = {"inner": attr("inner", cInner)}
         cModel.own["_tx_attrs"] = {"name": attr("name", cID), "items": attr("items", cItem, MANY), "first": attr("first", cItem, ONE, cont=False, ref=True, provider=prov, mrule="ID"),
                                    "refs": attr("refs", cItem, MANY, cont=False, ref=True, provider=None, mrule="FQN"), "kind": attr("kind", cKind), "val": attr("val", cVal), "box": attr("box", cBox),
-                                   "val2": attr("val2", cKindM), "val3": attr("val3", cKindT), "thing": attr("thing", cUser), "code": attr("code", cID), "code2": attr("code2", cID), "code0": attr("code0", cID), "kind2": attr("kind2", cKindM)}
+                                   "val2": attr("val2", cKindM), "val3": attr("val3", cKindT), "thing": attr("thing", cUser), "code": attr("code", cID), "code2": attr("code2", cID), "code0": attr("code0", cID), "kind2": attr("kind2", cKindM), "num": attr("num", cVal)}
         def rule(name, cls=None, attr_name=None, root=True, sep=None): return HS({".kind": "rule", ".rule_name": name, ".root": root, "._tx_class": cls, "._attr_name": attr_name, ".sep": sep, ".suppress": False})
         def T(rule_name, value, pos): return TermS({".__class__": TERM, ".kind": "terminal", ".value": value, ".rule_name": rule_name, ".position": pos, ".position_end": pos + len(value), ".rule": rule(rule_name, {"ID": cID}.get(rule_name), root=False), ".suppress": False, ".flat_str": pyeval.PyFn(lambda: value)})
         def N(rule_name, pos, end, kids, cls=None, attr_name=None, sep=None): return pyeval.SList(kids, rule_name=rule_name, rule=rule(rule_name, cls, attr_name, sep=sep), position=pos, position_end=end, value="|".join(str(k) for k in kids), suppress=False, flat_str=pyeval.PyFn(lambda: "".join(str(k) if isinstance(k, TermS) else k.sample_attrs["flat_str"]() for k in kids)))
@@ -83,7 +83,8 @@ def r_processnode(root):
                  A("plain", "kind2", 128, 129, [N("KindM", 128, 129, [N("Val", 128, 128, [T("STRING", "w", 128)], cVal),                      # abstract alternative: a match rule, then an abstract rule, then a common rule
                                                                     N("Kind", 128, 129, [N("B", 128, 129, [A("plain", "name", 128, 129, [T("ID", "b2", 128)])], cB)], cKind),
                                                                     N("Item", 129, 129, [A("plain", "name", 129, 129, [T("ID", "i9", 129)])], cItem)], cKindM)])]
-        if double: kids.append(A("plain", "name", 130, 135, [T("ID", "again", 130)]))
+        kids.append(A("plain", "num", 131, 135, [N("Val", 131, 135, [RT("STRICTFLOAT", "-1.5", 131, 3, "1.5", "([+-]?((\\d+\\.\\d*)|(\\.\\d+)))")], cVal)]))       # a match rule made of one regex token with several groups
+        if double: kids.append(A("plain", "name", 136, 139, [T("ID", "again", 136)]))
         tree = N("Model", 0, 140, kids, cModel)
         processed = []
         def init_attrs(o):
@@ -137,10 +138,10 @@ def r_processnode(root):
     thing = g(model, "thing"); U = C["User"]
     rep("C14", "C14.m", "an object of a user class is allocated from the user's class without running __init__, registered for initialisation after the model is built", isinstance(thing, pyeval.InstObj) and thing.cls is U and parser["._user_class_inst"] == [thing] and parser["._user_obj_ids"] == [id(thing)] and id(thing) in U.own["_tx_obj_attrs"] and thing.own.get("parent") is model and g(thing, "name") == "ut",
         "the object matched by the rule of the user class UserThing is %s; registered for __init__: %s, attribute store reserved: %s, parent set: %s; documented: an instance of the user's class, allocated without __init__, queued once for initialisation, with its attributes collected and its parent set" % (thing.cls.name if isinstance(thing, pyeval.InstObj) else thing, parser["._user_class_inst"] == [thing], isinstance(thing, pyeval.InstObj) and id(thing) in U.own["_tx_obj_attrs"], isinstance(thing, pyeval.InstObj) and thing.own.get("parent") is model))
-    rep("C13", "C13.h", "every match is converted once under the name of its own rule, with the file and position of the match", ("m", "ID", "model.file", ("line", 0), ("col", 0)) in processed and ("ab", "Val", "model.file", ("line", 91), ("col", 91)) in processed and ("<m>", "CODE", "model.file", ("line", 116), ("col", 116)) in processed and len([x for x in processed if x[1] == "Val"]) == 2
+    rep("C13", "C13.h", "every match is converted once under the name of its own rule, with the file and position of the match", ("m", "ID", "model.file", ("line", 0), ("col", 0)) in processed and ("ab", "Val", "model.file", ("line", 91), ("col", 91)) in processed and ("<m>", "CODE", "model.file", ("line", 116), ("col", 116)) in processed and len([x for x in processed if x[1] == "Val"]) == 3
         and ("b", "STRING", "model.file", ("line", 93), ("col", 93)) in processed and ("q", "ID", "model.file", ("line", 79), ("col", 79)) in processed and ("p.q", "FQN", "model.file", ("line", 75), ("col", 75)) in processed,
         "the conversions requested while building the sample model are %s; documented: one per match under its rule name with file, line and col of the match (e.g. 'm' as ID at 0, 'ab' as Val at 91 and its part 'b' as STRING at 93, 'p.q' as FQN at 75 and its part 'q' as ID at 79, '<m>' as CODE at 116)" % ([x for x in processed if x[1] in ("Val", "CODE", "STRING", "FQN") or x[0] in ("m", "q")][:12],))
-    rep("C01", "C01.k", "without use_regexp_group every regex match is taken whole", g(model, "code") == "<m>" and g(model, "code2") == "<n>" and g(model, "code0") == "<o>", "without use_regexp_group the regex matches '<m>', '<n>', '<o>' give %r, %r, %r; documented: the whole match" % (g(model, "code"), g(model, "code2"), g(model, "code0")))
+    rep("C01", "C01.k", "without use_regexp_group every regex match is taken whole", g(model, "code") == "<m>" and g(model, "code2") == "<n>" and g(model, "code0") == "<o>" and g(model, "num") == "converted:-1.5", "without use_regexp_group the regex matches '<m>', '<n>', '<o>' give %r, %r, %r; documented: the whole match" % (g(model, "code"), g(model, "code2"), g(model, "code0")))
     xr = parser["._crossrefs"]
     def xd(x): return (x[2].get(".obj_name"), x[2].get(".position"), x[2].get(".position_end"), x[2].get(".cls") is C["Item"], x[1].get(".name") if isinstance(x[1], dict) else None, x[0] is model) if isinstance(x, (tuple, list)) and len(x) == 3 and isinstance(x[2], dict) else x
     want = [("i2", 61, 63, True, "first", True), ("i1", 64, 66, True, "refs", True), ("i2", 68, 70, True, "refs", True), ("i1", 72, 74, True, "refs", True), ("p.q", 75, 80, True, "refs", True)]
@@ -172,7 +173,7 @@ def r_processnode(root):
     env, parser, mm, C, prov, processed = build(regexp_group=True)
     k, model = run(env)
     if k == "ret" and isinstance(model, pyeval.InstObj):
-        rep("C01", "C01.k", "use_regexp_group: a regex with exactly one group yields the group, converted under the rule's name", model.own.get("code") == "m" and ("m", "CODE", "model.file", ("line", 116), ("col", 116)) in processed and model.own.get("name") == "m" and model.own.get("val") == "converted:ab" and model.own.get("code2") == "<n>" and model.own.get("code0") == "<o>",
-            "with use_regexp_group the match '<m>' of the one-group regex rule CODE gives %r (conversions requested: %s), the matches '<n>' of a two-group regex and '<o>' of a regex without groups give %r and %r; documented: the group text 'm', converted once as CODE with the position of the match; the whole match for every other regex (the choice depends on the pattern, not on the individual match)" % (model.own.get("code"), [x for x in processed if x[1] == "CODE"], model.own.get("code2"), model.own.get("code0")))
+        rep("C01", "C01.k", "use_regexp_group: a regex with exactly one group yields the group, converted under the rule's name", model.own.get("code") == "m" and ("m", "CODE", "model.file", ("line", 116), ("col", 116)) in processed and model.own.get("name") == "m" and model.own.get("val") == "converted:ab" and model.own.get("code2") == "<n>" and model.own.get("code0") == "<o>" and model.own.get("num") == "converted:-1.5",
+            "with use_regexp_group the match '<m>' of the one-group regex rule CODE gives %r (conversions requested: %s), the matches '<n>' of a two-group regex and '<o>' of a regex without groups give %r and %r; documented: the group text 'm', converted once as CODE with the position of the match; the whole match for every other regex (the choice depends on the pattern, not on the individual match), also inside a match rule (num = %r, documented 'converted:-1.5')" % (model.own.get("code"), [x for x in processed if x[1] == "CODE"], model.own.get("code2"), model.own.get("code0"), model.own.get("num")))
     else: rep("C01", "C01.k", "the sample tree is built with use_regexp_group", False, "with use_regexp_group building the sample model %s" % ("raises %s" % model.cls if k == "raise" else "fails"))
     return inst, out
